@@ -13,6 +13,7 @@
 //   select_text <hex>      select the first candidate with this text
 //   delete <i>             delete_candidate(i)
 //   delete_user <k>        delete the k-th candidate of a user type (user_phrase / user_table)
+//   select_user <k>        select the k-th candidate of a user type
 //   delete_text <hex>      delete the first candidate with this text
 //   ctrl_delete <i>        highlight_candidate(i) then Control+Delete through process_key
 //   commit | clear | restart_session | restart_service
@@ -141,12 +142,41 @@ class SpyScript : public rime::ScriptTranslator, public SpyBase {
   }
 };
 
+// the unity table encoder of a table translator with `enable_encoder: true`: every EncodePhrase call is reported together
+// with the codes it created entries for (the rule-based encoder proper is an oracle of the model)
+class SpyEncoder : public rime::UnityTableEncoder {
+ public:
+  explicit SpyEncoder(rime::UserDictionary* ud) : rime::UnityTableEncoder(ud) {}
+  bool EncodePhrase(const std::string& phrase, const std::string& value) override {
+    std::vector<std::string> outer;
+    outer.swap(codes_);
+    bool r = rime::UnityTableEncoder::EncodePhrase(phrase, value);
+    std::ostringstream o;
+    o << "E encode_phrase " << hex(phrase) << " " << (value == "0" ? "0" : "1") << " " << codes_.size();
+    for (auto& c : codes_) o << " " << hex(c);
+    emit(o.str());
+    codes_.swap(outer);
+    return r;
+  }
+  void CreateEntry(const std::string& word, const std::string& code_str, const std::string& weight_str) override {
+    codes_.push_back(code_str);
+    rime::UnityTableEncoder::CreateEntry(word, code_str, weight_str);
+  }
+ private:
+  std::vector<std::string> codes_;
+};
+
 class SpyTable : public rime::TableTranslator, public SpyBase {
  public:
   explicit SpyTable(const rime::Ticket& t) : rime::TableTranslator(t) {
     ns = name_space_; script = false; mem = this; engine = engine_;
+    if (encoder_) {
+      encoder_.reset(new SpyEncoder(user_dict_.get()));
+      encoder_->Load(t);
+    }
     g_spies.push_back(this);
   }
+  bool encoder_loaded() const { return encoder_ && encoder_->loaded(); }
   ~SpyTable() override {
     if (user_dict_ && user_dict_->loaded()) emit("E close " + ns);
     for (size_t i = 0; i < g_spies.size(); ++i) if (g_spies[i] == this) { g_spies.erase(g_spies.begin() + i); break; }
@@ -182,6 +212,13 @@ static std::string sel_desc(SpyBase* spy, const an<rime::Candidate>& raw) {
 static void on_commit(rime::Context* ctx) {
   SpyBase* spy = main_spy();
   if (!spy || !spy->mem->user_dict() || spy->mem->user_dict()->readonly()) return;
+  if (!spy->script && static_cast<SpyTable*>(spy)->encoder_loaded()) {
+    // Engine::OnCommit (connected first) has already pushed this commit; Memorize read the history in this state
+    std::ostringstream h;
+    h << "E history " << ctx->commit_history().size();
+    for (auto& r : ctx->commit_history()) h << " " << (r.type.empty() ? "-" : r.type) << " " << hex(r.text);
+    emit(h.str());
+  }
   std::ostringstream o;
   o << "E commit " << (long)g_now << " " << ctx->composition().size();
   for (auto& seg : ctx->composition()) o << " " << (int)seg.status << " " << sel_desc(spy, seg.GetSelectedCandidate());
@@ -441,7 +478,7 @@ int main(int argc, char** argv) {
     } else if (w == "select") {
       size_t i; is >> i;
       if (!api->select_candidate(g_session, i)) status = "noop";
-    } else if (w == "select_whole" || w == "select_part" || w == "select_text" || w == "select_completion" || w == "delete_completion" || w == "delete_user" || w == "delete_text") {
+    } else if (w == "select_whole" || w == "select_part" || w == "select_text" || w == "select_completion" || w == "select_user" || w == "delete_completion" || w == "delete_user" || w == "delete_text") {
       std::string arg; is >> arg;
       rime::Context* ctx = context();
       size_t len = ctx ? ctx->input().length() : 0;
@@ -452,7 +489,7 @@ int main(int argc, char** argv) {
         bool ok = w == "select_whole" ? cs[i].end == len
                   : w == "select_part" ? cs[i].end < len
                   : (w == "select_completion" || w == "delete_completion") ? cs[i].type == "completion"
-                  : w == "delete_user" ? (cs[i].type == "user_phrase" || cs[i].type == "user_table")
+                  : (w == "delete_user" || w == "select_user") ? (cs[i].type == "user_phrase" || cs[i].type == "user_table")
                                        : cs[i].text == want;
         if (ok && k-- == 0) { found = (long)i; break; }
       }
